@@ -192,21 +192,6 @@ Fixpoint plain_decode_all (fuel : nat) (s : bytes) : list message * derr :=
 Definition plain_run (s : bytes) : list message * derr := plain_decode_all (S (length s)) s.
 
 (* ---------- well-formedness (the premise of the round-trip theorems), as boolean predicates ---------- *)
-Definition u64 (x : N) : bool := x <? two64.
-Definition u32 (x : N) : bool := x <? two32.
-Definition group_ok (g : group) : bool := u64 (g_node g) && u64 (g_gid g) && u64 (g_rid g).
-Definition entry_ok (e : entry) : bool :=
-  u32 (e_type e) && u64 (e_term e) && u64 (e_index e) && u64 (e_id e) && u32 (e_dtype e) && u64 (e_ts e).
-Definition conf_ok (c : confstate) : bool :=
-  forallb u64 (c_nodes c) && forallb group_ok (c_groups c) && forallb u64 (c_learners c) && forallb group_ok (c_lgroups c).
-Definition snap_ok (s : snapshot) : bool :=
-  conf_ok (sm_conf (s_meta s)) && u64 (sm_index (s_meta s)) && u64 (sm_term (s_meta s)).
-(* every field is a value of its Go type, and the encoding is shorter than 2^63 bytes (Go's int) *)
-Definition msg_ok (m : message) : bool :=
-  u32 (m_type m) && u64 (m_to m) && u64 (m_from m) && u64 (m_term m) && u64 (m_logterm m) && u64 (m_index m) &&
-  forallb entry_ok (m_entries m) && u64 (m_commit m) && snap_ok (m_snap m) && u64 (m_rhint m) &&
-  group_ok (m_fromg m) && group_ok (m_tog m) && (msg_size m <? two63).
-
 Definition group_eqb (a b : group) : bool := same_group a b && bytes_eqb (g_name a) (g_name b).
 Definition is_none {A} (o : option A) : bool := match o with None => true | Some _ => false end.
 Definition snap_is_zero (s : snapshot) : bool :=
